@@ -599,22 +599,84 @@ func ruleOffsetProvenance(c *core.Ctx) {
 	})
 	c.Check(rule, "pdf.(*Reader).readXRef/prev-range", "the /Prev range check takes headerOffset into account", func(o *core.Ob) {
 		fn := c.Prog.Func("pdf", "(*Reader).readXRef")
-		has := false
-		for _, v := range fn.Graph().BranchVertices() {
-			if v.Cond.Expr == nil {
-				continue
+		g := fn.Graph()
+		info := fn.Info()
+		// the /Prev value: locals that hold dict["Prev"] or its Integer form
+		prevObjs := map[types.Object]bool{}
+		isPrevLookup := func(e ast.Expr) bool {
+			if ta, ok := ast.Unparen(e).(*ast.TypeAssertExpr); ok {
+				e = ta.X
 			}
-			mentionsPrev, mentionsHO := false, mentionsHeaderOffset(fn, v.Cond.Expr, 2)
-			ast.Inspect(v.Cond.Expr, func(n ast.Node) bool {
-				if id, ok := n.(*ast.Ident); ok && id.Name == "prevStart" {
-					mentionsPrev = true
+			if ix, ok := ast.Unparen(e).(*ast.IndexExpr); ok {
+				k, isK := core.StringConst(info, ix.Index)
+				return isK && k == "Prev"
+			}
+			if id, ok := ast.Unparen(e).(*ast.Ident); ok {
+				return prevObjs[info.ObjectOf(id)]
+			}
+			return false
+		}
+		for round := 0; round < 3; round++ {
+			for _, v := range g.Vs {
+				as, ok := v.AST.(*ast.AssignStmt)
+				if !ok || len(as.Rhs) != 1 || !isPrevLookup(as.Rhs[0]) {
+					continue
 				}
-				return true
-			})
-			if mentionsPrev && mentionsHO {
-				has = true
-				o.At(fn.Site(v.AST, "range check"))
+				if obj := core.ObjOf(info, as.Lhs[0]); obj != nil {
+					prevObjs[obj] = true
+				}
 			}
+		}
+		// legacy name
+		ast.Inspect(fn.Decl.Body, func(n ast.Node) bool {
+			if id, ok := n.(*ast.Ident); ok && id.Name == "prevStart" {
+				if obj := info.ObjectOf(id); obj != nil {
+					prevObjs[obj] = true
+				}
+			}
+			return true
+		})
+		mentionsPrevVal := func(e ast.Expr) bool {
+			found := false
+			ast.Inspect(e, func(n ast.Node) bool {
+				if id, ok := n.(*ast.Ident); ok && prevObjs[info.ObjectOf(id)] {
+					found = true
+				}
+				return !found
+			})
+			return found
+		}
+		has, anyCmp := false, false
+		ast.Inspect(fn.Decl.Body, func(n ast.Node) bool {
+			be, ok := n.(*ast.BinaryExpr)
+			if !ok {
+				return true
+			}
+			switch be.Op {
+			case token.LSS, token.LEQ, token.GTR, token.GEQ:
+			default:
+				return true
+			}
+			if !mentionsPrevVal(be) {
+				return true
+			}
+			// an upper bound on the value (a comparison with something other than a constant)
+			if _, isK := core.IntConst(info, be.Y); isK {
+				return true
+			}
+			if _, isK := core.IntConst(info, be.X); isK {
+				return true
+			}
+			anyCmp = true
+			if mentionsHeaderOffset(fn, be, 2) {
+				has = true
+				o.At(fn.Site(be, "range check"))
+			}
+			return true
+		})
+		if !has && !anyCmp {
+			o.Unrec("no comparison of the /Prev value with the file size was found")
+			return
 		}
 		o.Require(has, "no range check of /Prev against size-headerOffset found")
 	})
